@@ -101,6 +101,8 @@ def no_return_funcs(repo, cls):
 
 
 def run(repo, rep, tier):
+    from .c12 import namespace_validated_first
+    namespace_validated_first(repo, rep, 'C14.R12', lambda n: n.startswith('Open'))
     r1 = rep.rule('C14.R1', 'context table lifecycle (who may write; eos '
                   '<=> delete)')
     r2 = rep.rule('C14.R2', 'refuse before consuming')
